@@ -6,11 +6,16 @@ def run(cx):
     E.exc_discipline(cx, E.BEADS)
     E.exc_discipline(cx, E.SAMPLES)
     E.fault_table(cx)
+    E.empty_table(cx, E.BEADS)
+    E.empty_table(cx, E.SAMPLES)
     from . import gate_rules
     gate_rules.fraction_refusal(cx, 'EXC')      # the source of the gate-fraction fault
     E.units_dispatch(cx)
     E.loop_independence(cx, E.BEADS)
     E.loop_independence(cx, E.SAMPLES)
+    # nothing a row leaves behind in module-level state can reach a later row
+    from . import mef_rules
+    mef_rules.no_module_state(cx, ('io', 'transform', 'gate', 'stats', 'mef', 'plot', 'excel_ui'))
     n = 0
     for q, d in (('excel_ui.add_beads_stats', 'beads_samples'), ('excel_ui.add_samples_stats', 'samples'),
                  ('excel_ui.generate_histograms_table', 'samples')):
@@ -26,6 +31,8 @@ def run(cx):
         'each documented fault (file not found, <400 events, gate fraction, units, missing calibration, missing curve, instrument, amplifier, detector voltage, MEF count) has its raise site / converting handler of the documented shape inside the try',
         'converting handlers only read attributes that exist on the caught exception class (they cannot fault and abort the batch)',
         'no loop-carried state: every per-row value is definitely assigned in the row before it is read; nothing created before the loop is modified or rebound in it',
+        'no function of the package writes module-level state (caches, registries): a row cannot influence a later one through the library',
+        'an empty table returns what a processed table returns, case by case (full_output or not)',
         'error rows are discriminated by type before every use as a sample; they get an ERROR: note and empty statistics',
     ]
     cx.not_decided += ['implicit library exceptions on malformed files (not documented row faults)']
